@@ -354,8 +354,17 @@ def extsCanonical : Asn1 → Bool
   | .cons 0 16 kids => kids.all extCanonical
   | _ => false
 
+/-- RFC 5280 §4.1.2.5, §5.1.2.4-6: validity, thisUpdate, nextUpdate and revocationDate MUST be
+    UTCTime for dates in 1950..2049; GeneralizedTime is for the years UTCTime cannot express -/
+def timeChoiceOk : Asn1 → Bool
+  | .prim 0 24 c =>
+    match digitsVal (c.take 4) with
+    | some y => !(1950 ≤ y && y ≤ 2049)
+    | none => false
+  | _ => true
+
 /-- canonical DER of a whole certificate: strict TLV, leaf rules everywhere, extension values
-    opened and checked -/
+    opened and checked, validity in the RFC 5280 choice of time type -/
 def certCanonical (der : Bytes) : Bool :=
   match decodeAll der with
   | some t =>
@@ -364,6 +373,7 @@ def certCanonical (der : Bytes) : Bool :=
      | .cons 0 16 [.cons 0 16 fields, _, _] =>
        fields.all (fun (f : Asn1) => match f with
          | .cons 2 3 [e] => extsCanonical e
+         | .cons 0 16 [a, b] => timeChoiceOk a && timeChoiceOk b
          | _ => true)
      | _ => false)
   | none => false
@@ -377,8 +387,10 @@ def crlCanonical (der : Bytes) : Bool :=
        fields.all (fun (f : Asn1) => match f with
          | .cons 2 0 [e] => extsCanonical e
          | .cons 0 16 entries => entries.all (fun (en : Asn1) => match en with
-             | .cons 0 16 [_, _, e] => extsCanonical e
+             | .cons 0 16 [_, d, e] => timeChoiceOk d && extsCanonical e
+             | .cons 0 16 [_, d] => timeChoiceOk d
              | _ => true)
+         | .prim 0 24 c => timeChoiceOk (.prim 0 24 c)
          | _ => true)
      | _ => false)
   | none => false
